@@ -136,6 +136,16 @@ every harvested `parse` call — takes no path.) -/
 theorem C14_mock_unit_location_independent (isExtern : Bool) (path₁ path₂ : String) :
     mockUnit isExtern path₁ = mockUnit isExtern path₂ := rfl
 
+/-! ### 2d. `ModuleSymbolsBuilder`: original path of a unit — live code -/
+
+/-- **C14 (form of the workspace path).** The source path recorded for a scanned unit depends on the entry only
+through its real path: the same workspace directory given to -w as a relative or as an absolute path yields
+the same `original_path`. -/
+theorem C14_original_path_form_independent (table : List (String × String)) (realpath : String → String)
+    {p₁ p₂ : String} (h : realpath p₁ = realpath p₂) :
+    originalPath table realpath p₁ = originalPath table realpath p₂ := by
+  unfold originalPath; rw [h]
+
 /-! ### 3. `GeneralLoader.convert_active_bundle_to_dataframe` -/
 
 /-- **C14 (bundle export).** The rows of an exported bundle do not depend on the order in which the items
@@ -344,6 +354,13 @@ workspace `a/lian_workspace/externs/w`: only the second is taken for extern mock
 theorem C14_unfixed_counterexample_mock_location :
     mockUnit0 "lian_workspace/externs" "w/lian_workspace/src/proj/a.py" = false ∧
     mockUnit0 "lian_workspace/externs" "a/lian_workspace/externs/w/src/proj/a.py" = true := by decide
+
+/-- **Pinned commit, site 6**: workspace `w` given as a relative path — the scanned entry `w/…/a.py` is not a
+key of the table (keyed by real paths), the unit loses its source; given as an absolute path it is found. -/
+theorem C14_unfixed_counterexample_relative_workspace :
+    originalPath0 [("/r/w/lian_workspace/src/proj/a.py", "/in/proj/a.py")] "w/lian_workspace/src/proj/a.py" = "" ∧
+    originalPath0 [("/r/w/lian_workspace/src/proj/a.py", "/in/proj/a.py")] "/r/w/lian_workspace/src/proj/a.py"
+      = "/in/proj/a.py" := by decide
 
 /-- **Live code, not order-independent** (monitored, no failing input known): `CallSite.__lt__` compares
 (caller_id, call_stmt_id) only, so two call sites of one call statement with different callees are not
